@@ -26,6 +26,9 @@ type cliPkg struct {
 	// provider set of the module's package "shared" (whose content has
 	// variants of its own).
 	Shared bool `json:"shared,omitempty"`
+	// TagBroken: the tag-guarded injector file (see Tagged) holds an injector
+	// with a missing provider, so the package fails exactly under -tags extra.
+	TagBroken bool `json:"tagbroken,omitempty"`
 }
 
 // sources returns the files of the package (without any wire_gen.go).
@@ -94,14 +97,26 @@ func (p cliPkg) sources() map[string]string {
 		f["wire_shared.go"] = fmt.Sprintf("//go:build wireinject\n\npackage %s\n\nimport (\n\t\"github.com/google/wire\"\n\n\t\"%s/shared\"\n)\n\nfunc InitUS() *US {\n\twire.Build(shared.Set, NewUS)\n\treturn nil\n}\n", p.Name, ModPath)
 	}
 	if p.Tagged && (p.Kind == "ok") {
-		f["wire_extra.go"] = fmt.Sprintf("//go:build wireinject && extra\n\npackage %s\n\nimport \"github.com/google/wire\"\n\nfunc InitExtra() *T0 {\n\twire.Build(NewT0)\n\treturn nil\n}\n", p.Name)
+		build := "NewT0"
+		res := "*T0"
+		if p.TagBroken {
+			build, res = "NewTop", "*Top" // NewTop's inputs have no provider here
+		}
+		f["wire_extra.go"] = fmt.Sprintf("//go:build wireinject && extra\n\npackage %s\n\nimport \"github.com/google/wire\"\n\nfunc InitExtra() %s {\n\twire.Build(%s)\n\treturn nil\n}\n", p.Name, res, build)
 	}
 	return f
 }
 
-func (p cliPkg) failsGen() bool   { return strings.HasPrefix(p.Kind, "fail-") }
-func (p cliPkg) failsCheck() bool { return p.failsGen() || p.Kind == "noinj-badset" }
-func (p cliPkg) generates() bool  { return p.Kind == "ok" }
+// The verdicts depend on the build tags of the invocation: a package whose
+// tag-guarded injector file is broken fails only under that tag.
+func (p cliPkg) brokenUnder(tags string) bool {
+	return p.Kind == "ok" && p.Tagged && p.TagBroken && tags == "extra"
+}
+func (p cliPkg) failsGen(tags string) bool {
+	return strings.HasPrefix(p.Kind, "fail-") || p.brokenUnder(tags)
+}
+func (p cliPkg) failsCheck(tags string) bool { return p.failsGen(tags) || p.Kind == "noinj-badset" }
+func (p cliPkg) generates(tags string) bool  { return p.Kind == "ok" && !p.brokenUnder(tags) }
 
 // cliOpts are the command-line options of one invocation.
 type cliOpts struct {
@@ -173,7 +188,8 @@ func (w *cliWorld) writeSkeleton(dir string) error {
 		return err
 	}
 	return WriteTree(dir, map[string]string{
-		"go.mod":           "module " + ModPath + "\n\ngo 1.21\n\nrequire github.com/google/wire v0.0.0\n\nreplace github.com/google/wire => ./wiremod\n",
+		// (the "// indirect" mark is stale on purpose: loading packages must not tidy the file)
+		"go.mod":           "module " + ModPath + "\n\ngo 1.21\n\nrequire github.com/google/wire v0.0.0 // indirect\n\nreplace github.com/google/wire => ./wiremod\n",
 		"wiremod/go.mod":   "module github.com/google/wire\n\ngo 1.21\n",
 		"wiremod/wire.go":  string(marker),
 		"header.txt":       "// Copyright header line 1\n// line 2\n\n",
@@ -216,10 +232,10 @@ func (w *cliWorld) run(cmd string, o cliOpts, patterns ...string) CmdResult {
 // freshContent returns what an isolated generation of package p on a pristine
 // checkout writes under the given options ("" if it generates nothing).
 func (w *cliWorld) freshContent(p cliPkg, o cliOpts) (string, error) {
-	if !p.generates() || o.Header == "unreadable" || o.Header == "invalid" {
+	if !p.generates(o.Tags) || o.Header == "unreadable" || o.Header == "invalid" {
 		return "", nil
 	}
-	key := fmt.Sprintf("%s|%d|%s|%v|%s|%v", p.Name, p.Variant, p.Kind, p.Tagged, cliOpts{Header: o.Header, Tags: o.Tags}.key(), p.LineDir)
+	key := fmt.Sprintf("%s|%d|%s|%v|%s|%v|%v", p.Name, p.Variant, p.Kind, p.Tagged, cliOpts{Header: o.Header, Tags: o.Tags}.key(), p.LineDir, p.TagBroken)
 	if p.Shared {
 		key += fmt.Sprintf("|shared%d", ((w.sharedVar%3)+3)%3)
 	}
